@@ -121,6 +121,70 @@ Definition decrypt_multi_undercount (E D : list N -> list N -> list N) (di : lis
   Ok (mkXF (xf_moof_start f) (map (shift_traf removed) cs2)
            (if xf_moof_start f <? xf_mdat_start f then sub_u64 (xf_mdat_start f) removed else xf_mdat_start f)).
 
+(* the PINNED text of the first loop (before fix fc9ee41, finding C06-F7): `samples, err := frag.GetFullSamples(ti.Trex)`
+   returns the samples of the FIRST traf of the moof whose track id is that of the trex - not those of the traf at
+   hand - and decryptSamplesInPlace works in place on them.  The moof children are the state; traf i is decrypted
+   with ITS senc over the samples of traf j = the first traf of the same track.  Kept to state that it breaks the
+   property on a moof with two trafs of one track (C06_first_traf_samples_refuted); tracks are assumed to have a trex *)
+Fixpoint first_traf_of (track : N) (cs : list xchild) (j : nat) : option (nat * xtraf) :=
+  match cs with
+  | [] => None
+  | XTraf t :: rest => if x_track t =? track then Some (j, t) else first_traf_of track rest (S j)
+  | _ :: rest => first_traf_of track rest (S j)
+  end.
+
+Fixpoint update_child (cs : list xchild) (j : nat) (f : xtraf -> xtraf) : list xchild :=
+  match cs, j with
+  | [], _ => []
+  | XTraf t :: rest, O => XTraf (f t) :: rest
+  | c :: rest, O => c :: rest
+  | c :: rest, S k => c :: update_child rest k f
+  end.
+
+Section Pinned.
+  Variable E : list N -> list N -> list N.
+  Variable D : list N -> list N -> list N.
+
+  Fixpoint decrypt_trafs_pinned (fuel i : nat) (di : list (N * option tinfo)) (key : list N) (cs : list xchild)
+           (removed : N) : res (list xchild * N) :=
+    match fuel with
+    | O => Ok (cs, removed)
+    | S fuel' =>
+        match nth_error cs i with
+        | None => Ok (cs, removed)
+        | Some (XTraf t) =>
+            match find_track di (x_track t) with
+            | None => decrypt_trafs_pinned fuel' (S i) di key cs removed
+            | Some ti =>
+                match ti_sch ti with
+                | SchemeOther => Err
+                | _ =>
+                    if negb (has_senc (x_children t)) then Err else
+                    match first_traf_of (x_track t) cs 0 with
+                    | None => Err
+                    | Some (j, tj) =>
+                        do samples <- decrypt_samples E D (ti_sch ti) key (ti_constiv ti) (ti_cb ti) (ti_sb ti)
+                                                      (x_ivs t) (x_subs t) (x_data tj);
+                        let cs1 := update_child cs j (fun u => mkX (x_track u) (x_children u) (x_offsets u) (x_ivs u)
+                                                                   (x_subs u) samples) in
+                        let cs2 := update_child cs1 i (fun u => mkX (x_track u) (fst (remove_encryption_boxes (x_children u)))
+                                                                    (x_offsets u) [] [] (x_data u)) in
+                        decrypt_trafs_pinned fuel' (S i) di key cs2 (removed + snd (remove_encryption_boxes (x_children t)))
+                    end
+                end
+            end
+        | Some _ => decrypt_trafs_pinned fuel' (S i) di key cs removed
+        end
+    end.
+
+  Definition decrypt_multi_pinned (di : list (N * option tinfo)) (key : list N) (f : xfrag) : res xfrag :=
+    do r <- decrypt_trafs_pinned (length (xf_children f)) 0 di key (xf_children f) 0;
+    let '(cs2, n2) := xremove_psshs (fst r) in
+    let removed := snd r + n2 in
+    Ok (mkXF (xf_moof_start f) (map (shift_traf removed) cs2)
+             (if xf_moof_start f <? xf_mdat_start f then sub_u64 (xf_mdat_start f) removed else xf_mdat_start f)).
+End Pinned.
+
 (* ---------------------------------------------------------------- the specification side *)
 (* what the property asks of the box tree: in a protected traf the saiz / saio / senc boxes go, everything else
    stays in order; a traf of a clear track is untouched; pssh boxes of the moof go; every other moof child stays *)
